@@ -92,6 +92,52 @@ def order_rules(kind, pos):
     return (r[0] == "ok") if valid else (r == ("piquasso-exception", 0))
 
 
+def order_sequence(k0, k1, k2, k3):
+    """a 4-instruction program whose k-th instruction (on mode k) is a gate (0), a preparation (1), a measurement allowed
+    mid-circuit (2) or a measurement allowed only as the LAST instruction (3): accepted iff the preparations form a prefix
+    and every kind-3 measurement is the last instruction; otherwise rejected before any step runs."""
+    kinds = [k0, k1, k2, k3]
+    def build():
+        ins = []
+        for pos in range(4):
+            k = kinds[pos]
+            if k == 0:
+                ins.append(G1(0.1).on_modes(pos))
+            elif k == 1:
+                ins.append(Prep())
+            elif k == 2:
+                ins.append(M().on_modes(pos))
+            else:
+                ins.append(M2().on_modes(pos))
+        return _prog(*ins)
+    valid = True
+    seen_other = False
+    for pos in range(4):
+        if kinds[pos] == 1:
+            if seen_other:
+                valid = False
+        else:
+            seen_other = True
+        if kinds[pos] == 3 and pos != 3:
+            valid = False
+    r = _attempt(build)
+    return (r[0] == "ok") if valid else (r == ("piquasso-exception", 0))
+
+
+def inferred_d(a, b, pos, extra):
+    """a simulator created WITHOUT d infers it from the program: a valid program (distinct non-negative modes in any
+    order, highest mode anywhere) is never refused and the state has max(mode)+1 modes."""
+    ins = [G1(0.1).on_modes(0), G1(0.2).on_modes(1), G1(0.3).on_modes(extra)]
+    ins[pos] = G2(0.3).on_modes(a, b)
+    want = max(max(i.modes) for i in ins) + 1
+    _arm(-1, -1)
+    try:
+        res = Sim().execute(_prog(*ins), shots=1)
+    except Exception:
+        return False
+    return res.state.d == want and steps_run() == 3
+
+
 def shots_rules(shots, use_none, meas_kind, pos):
     """shots must be a positive int or None; shots=None is refused (before any evolution) when the
     program contains a measurement that does not support it"""
@@ -168,6 +214,12 @@ def conditions(tier):
     for kind in range(4):
         add("order_k%d" % kind, "pos: int", "0 <= pos <= 3", "order_rules(%d, pos)" % kind,
             ["preparation after other instructions", "unsupported instruction", "measurement not allowed mid-circuit", "allowed mid-circuit measurement"][kind] + ": rejected up front exactly when invalid, for every position")
+    for k0 in range(4):
+        add("order_seq_k%d" % k0, "k1: int, k2: int, k3: int", "0 <= k1 <= 3 and 0 <= k2 <= 3 and 0 <= k3 <= 3", "order_sequence(%d, k1, k2, k3)" % k0,
+            "every sequence of 4 instruction kinds (gate / preparation / mid-circuit measurement / end-only measurement) starting with kind %d: accepted iff preparations form a prefix and end-only measurements are last, else rejected with zero steps" % k0, 120)
+    for pos in range(3):
+        add("inferred_d_p%d" % pos, "a: int, b: int, extra: int", "0 <= a <= 4 and 0 <= b <= 4 and a != b and 0 <= extra <= 5", "inferred_d(a, b, %d, extra)" % pos,
+            "simulator without d: the number of modes is inferred as max(mode)+1 for any mode order; valid programs run (2-mode gate at position %d)" % pos, 120)
     add("shots_int", "shots: int, meas_kind: int, pos: int", "-3 <= shots <= 3 and 0 <= meas_kind <= 1 and 0 <= pos <= 2", "shots_rules(shots, False, meas_kind, pos)",
         "non-positive shots rejected up front, positive accepted")
     add("shots_none", "meas_kind: int, pos: int", "0 <= meas_kind <= 1 and 0 <= pos <= 2", "shots_rules(1, True, meas_kind, pos)",
